@@ -12,6 +12,9 @@ ASSUMPTIONS = ['gringo/clasp contract G1-G6 (DESIGN.md 5.3)',
                'completeness of the head translation (every temporal stable model is reported) is NOT a theorem; it is covered by this correspondence only (a test)']
 def replay(ctx, payload):
     inp = payload['input']
+    if 'head_domain' in inp:
+        tt = lambda x: tuple(tt(y) for y in x) if isinstance(x, list) else x
+        return hdstruct.domain_compare(ctx, [[(p_, [tt(f) for f in els]) for p_, els in inp['head_domain']]])[0]['status'] != 'agree'
     if 'head_structure' in inp:
         tt = lambda x: tuple(tt(y) for y in x) if isinstance(x, list) else x
         r = hdstruct.compare(ctx, [[(p_, [tt(f) for f in els]) for p_, els in inp['head_structure']]], inp.get('H', 3))[0]
@@ -142,7 +145,16 @@ def run(ctx):
         if r['status'] in ('differ', 'implerror', 'modelerror'):
             res['counterexamples'].append({'key': 'c04:structure:' + r['program'].replace('\n', ' '), 'what': 'HeadFormula.translate and the model Model/HeadDefs.v differ: %s' % r.get('what'),
                                            'input': {'head_structure': [[p_, list(els)] for p_, els in rules], 'H': 3, 'program': r['program']}})
-    res['coverage']['evaluations'] += len(hrecs)
+    drecs = hdstruct.domain_compare(ctx, hcs)
+    dstat = {}
+    for r in drecs:
+        dstat[r['status']] = dstat.get(r['status'], 0) + 1
+        if r['status'] != 'agree':
+            res['counterexamples'].append({'key': 'c04:domain:' + r['program'].replace('\n', ' '), 'what': 'domain rule of the head formula and Model/HeadDomain.entries differ: %s' % r.get('what'),
+                                           'input': {'head_domain': [[p_, list(els)] for p_, els in r['rules']], 'program': r['program']}})
+    res['coverage']['evaluations'] += len(hrecs) + len(drecs)
+    res['coverage']['head_domain_status_histogram'] = dstat
+    res['coverage']['head_domain_entries_compared'] = sum(r['entries'] for r in drecs)
     res['coverage']['head_structure_status_histogram'] = hstat
     res['coverage']['head_structure_calls_compared'] = sum(r['calls'] for r in hrecs)
     res['coverage']['head_structure_clauses_compared'] = sum(r['clauses'] for r in hrecs)
